@@ -111,6 +111,9 @@ def do_parse(code):
         with quiet():
             b = mp.Parser(code, 'f').parse()
     except mp.ParseException as e:
+        if 'nested too deeply' in str(e):
+            # the interpreter's recursion limit (fix b4174a3): a resource bound the model does not have
+            return 'DEPTH' + P(e.lineno, e.colno), None
         return 'ERR' + P(e.lineno, e.colno), None
     except MesonException as e:
         return 'MESONERR:' + type(e).__name__, None
@@ -150,8 +153,8 @@ def oracle(code):
         return {'kind': 'internal-error', 'exc': res[4:]}
     if res.startswith('MESONERR'):
         return {'kind': 'unlocated-error', 'exc': res}
-    if res.startswith('ERR'):
-        l, c = [int(x) for x in res[4:].split(':')]
+    if res.startswith('ERR') or res.startswith('DEPTH'):
+        l, c = [int(x) for x in res[res.index('@') + 1:].split(':')]
         # a position inside the text: (line, col) denotes the point line_start(line) + col, which must
         # lie within the text (its end included, for errors at end of input); line 0 is used for
         # whole-file errors (BOM).  Columns are line-relative offsets and may run past the end of
